@@ -167,6 +167,20 @@ func sleepChoices(r *core.Rng, timeout int64, fired []int) int64 {
 }
 
 var nonCompleting = []uint16{tSYSCALL, tPATH, tCWD, tEXECVE, tSOCKADDR, 1326, 1328, 2099, tAVC, 1399}
+
+// anyType draws a record type from the whole 16-bit range, with weight on
+// the kernel range 1300..2099 (where only PROCTITLE terminates an event).
+func anyType(r *core.Rng) uint16 {
+	switch r.Intn(4) {
+	case 0:
+		return uint16(r.Intn(1 << 16))
+	case 1:
+		return uint16(r.Range(1290, 1340))
+	default:
+		return uint16(r.Range(1300, 2110))
+	}
+}
+
 var completing = []uint16{tPROCTITLE, tUSERAUTH, tLOGIN, tANOM, 1299, 1000, 2500, 1112, 65535, 0}
 
 func genStream(r *core.Rng, p *RPlan, tilt int, fired []int) []ROp {
@@ -227,10 +241,19 @@ func genStream(r *core.Rng, p *RPlan, tilt int, fired []int) []ROp {
 		ev := genEvent{off: off}
 		if r.Chance(pSingle, 100) {
 			ev.recs = []uint16{core.Pick(r, completing...)}
+			if r.Chance(1, 6) {
+				ev.recs[0] = anyType(r) // may or may not terminate its event
+			}
 		} else {
 			ev.recs = append(ev.recs, tSYSCALL)
 			for k := r.Intn(5); k > 0; k-- {
-				ev.recs = append(ev.recs, core.Pick(r, nonCompleting...))
+				t := core.Pick(r, nonCompleting...)
+				if r.Chance(1, 6) {
+					if t = anyType(r); completes(t) || t == tEOE {
+						t = tPATH
+					}
+				}
+				ev.recs = append(ev.recs, t)
 			}
 			switch r.Intn(4) {
 			case 0:
